@@ -521,3 +521,43 @@ fn helper2(ctx: &mut Ctx, a: &Value, b: &Value) {
     let (x, y) = (a.clone(), b.clone());
     helper_report(ctx, "parse_float_mul", observe::catch(move || { let _ = js_op::parse_float_mul(&vec![&x, &y]); }), a, b);
 }
+
+
+/// Error paths that quote an operand, in the check of every value property: big multi-byte operands
+/// (as evaluated values and as literals, bracketed and bare) in every position of the property's own
+/// operators, at four byte alignments; judged against the model, so a panic where the statements
+/// demand an error (or a value) is a violation of that property.
+pub fn error_echo_own(ctx: &mut Ctx, monitor: &str, ops: &[&str]) {
+    let all = all_ops();
+    let ops: Vec<&str> = if ops.is_empty() { all.clone() } else { ops.to_vec() };
+    let mut idx = 0u64;
+    for size in [150usize, 1500] {
+        for k in 0..4usize {
+            let body: String = std::iter::repeat("\u{1F600}\u{65e5}\u{e9}").take(size / 9).collect();
+            let s = format!("{}{}", "a".repeat(k), body);
+            let big_s = json!(s);
+            let big_a = json!([s, [s], 1]);
+            let big_o = json!({ "k": s, "j": [s] });
+            let big_key_o = {
+                let mut m = serde_json::Map::new();
+                m.insert(s.clone(), json!(1));
+                Value::Object(m)
+            };
+            let data = json!({"s": big_s, "a": big_a, "o": big_o, "ko": big_key_o});
+            for op in ops.iter() {
+                idx += 1;
+                if !ctx.mine(idx) {
+                    continue;
+                }
+                for (vname, lit) in [("s", &big_s), ("a", &big_a), ("o", &big_o), ("ko", &big_key_o)] {
+                    let v = json!({ "var": vname });
+                    for rule in [json!({ *op: [v] }), json!({ *op: [v, 1] }), json!({ *op: [1, v] }), json!({ *op: [v, v] }), json!({ *op: ["x", 1, v] }), json!({ *op: [v, 1, 1] }), json!({ *op: [[1], v, v] }), json!({ *op: v }),
+                                 json!({ *op: [lit, 1] }), json!({ *op: [1, lit] }), json!({ *op: [lit] }), json!({ *op: lit }), json!({ *op: [1, 2, lit] }), json!({ *op: [{}, lit] }), json!({ *op: [lit, {}] }), json!({ *op: [null, lit] })] {
+                        ctx.check(monitor, &rule, &data);
+                    }
+                }
+            }
+        }
+    }
+    ctx.cell("error-echo:own-operators");
+}
